@@ -653,3 +653,37 @@ def solve (S : Solver) (vars : List (String × Ty)) (As : List H) (C : H) : Bool
   | .error _ => false
 
 end Holpy.C06
+
+namespace Holpy.C06
+
+/-- Goals of the SymPy step, as far as the side conditions of `sympywrapper` look at them.
+`num` is any term for which `is_number()` holds (not traversed; the literal p / 0 is the number 0). -/
+inductive SE where
+  | var (x : String) | num (q : Rat)
+  | add (a b : SE) | sub (a b : SE) | mul (a b : SE) | div (a b : SE) | neg (a : SE) | abs (a : SE)
+  | npow (a : SE) (n : Nat) | rpow (a b : SE)
+  | sqrt (a : SE) | log (a : SE) | exp (a : SE)
+  | sin (a : SE) | cos (a : SE) | tan (a : SE) | cot (a : SE) | sec (a : SE) | csc (a : SE)
+  | rel (op : Cmp) (a b : SE) | eqn (a b : SE) | not (a : SE)
+  deriving Repr, Inhabited
+
+inductive Guard where
+  | nonzero (e : SE)    -- get_divisors / get_pole_divisors: must not vanish
+  | nonneg (e : SE)     -- get_domain_conds 'nonneg'
+  | pos (e : SE)        -- get_domain_conds 'pos'
+  deriving Repr, Inhabited
+
+/-- The side conditions `solve_goal` / `solve_with_interval` check before asking SymPy (fixes
+C06-7, C06-11): `get_divisors`, `get_pole_divisors`, `get_domain_conds` in one traversal. -/
+def sympyGuards : SE → List Guard
+  | .var _ | .num _ => []
+  | .add a b | .sub a b | .mul a b | .rel _ a b | .eqn a b => sympyGuards a ++ sympyGuards b
+  | .div a b => .nonzero b :: (sympyGuards a ++ sympyGuards b)
+  | .rpow a b => .pos a :: (sympyGuards a ++ sympyGuards b)
+  | .neg a | .abs a | .npow a _ | .exp a | .sin a | .cos a | .not a => sympyGuards a
+  | .sqrt a => .nonneg a :: sympyGuards a
+  | .log a => .pos a :: sympyGuards a
+  | .tan a | .sec a => .nonzero (.cos a) :: sympyGuards a
+  | .cot a | .csc a => .nonzero (.sin a) :: sympyGuards a
+
+end Holpy.C06
